@@ -1234,6 +1234,8 @@ def c11_compare(exp, got):
 def c11_run(w):
     from han import dlde, autodecoder
     content = bytes.fromhex(w["content"])
+    if w.get("before"):
+        dlde.decode_p1_readout_content(bytes.fromhex(w["before"]))       # decoder history: must leave no trace in what follows
     res = {"parsed": [(d.address, [(v.value, v.unit) for v in d.values]) for d in dlde.parse_p1_readout_content(content)],
            "content": dlde.decode_p1_readout_content(content),
            "auto_payload": autodecoder.AutoDecoder().decode_message_payload(content)}
